@@ -34,8 +34,9 @@ class GridRec:
 
 
 def slice_grid():
-    return slicer.slice_function(F, 'sigma_filter', targets=['data_row_min', 'data_row_max', 'rows', 'cols', 'gr', 'gc', 'box'], calls=['rows.append', 'cols.append'],
-                                 params=['region', 'box_size', 'shape', 'step_size', 'data'], returns=['data_row_min', 'data_row_max', 'rows', 'cols', 'box', 'gr'], closure=True, closure_exclude=['data'])
+    rows, cols = slicer.names_by_role(F, 'sigma_filter', 'interp-axes') or ('rows', 'cols')       # the node lists, found by their role
+    return slicer.slice_function(F, 'sigma_filter', targets=['data_row_min', 'data_row_max', rows, cols, 'gr', 'gc', 'box'], calls=[rows + '.append', cols + '.append'],
+                                 params=['region', 'box_size', 'shape', 'step_size', 'data'], returns=['data_row_min', 'data_row_max', rows, cols, 'box', 'gr'], closure=True, closure_exclude=['data'])
 
 
 def setup(c, nstripe_mode):
